@@ -3,7 +3,8 @@ SPEC = dict(
     props_file="Props/C08.v",
     harness=[
         dict(pkg="store/cache", test="TestVerifC08Cache", timeout=600, timeout_thorough=3000),
-        dict(pkg="store", test="TestVerifC08", timeout=900, timeout_thorough=3000, race=True,
+        dict(pkg="store", test="TestVerifC08", timeout=900, timeout_thorough=3000),
+        dict(pkg="store", test="TestVerifC08Race", timeout=900, timeout_thorough=3000, race=True,
              env=dict(GORACE="log_path=/verif/.build/c08_race halt_on_error=0")),
     ],
     translators=["locks"],
@@ -52,7 +53,7 @@ SPEC = dict(
         "interleavings INSIDE the real cache that the scripted schedules cannot force (two goroutines between lru.Get and addRef, etc.) are covered by the theorems over the model only, and by the concurrent stress",
         "model Store/StoreSpec.v (content per height, operation results) hand-written after store/store.go; tied by the histories recorded from the real store; a read overlapping a put of the same height is unconstrained (design: put publishes the in-memory accessor before the files exist, store.go:140-148); blocks are fixed per height (a height never gets two different blocks)",
         "Store/ConcAtomic.v models the mutators' disk effects (create ODS/Q4, link; unlink, delete) under an exclusive per-stripe lock; the caches in front of the files and the hash-stripe lock are not in that model; the file system is a map with atomic single effects",
-        "Go scheduling: which interleavings occur is explored by stress (seed-derived scripts, directed gates), not proved and not replayable step by step; a replay re-runs the round's scripts up to 300 times; data-race freedom = no report of the Go race detector during the run (harness built with -race); every put gets its own copy of the square with its roots computed first, as callers of Put do",
+        "Go scheduling: which interleavings occur is explored by stress (seed-derived scripts, directed gates), not proved and not replayable step by step; a replay re-runs the round's scripts up to 300 times; data-race freedom = no report of the Go race detector during the run (harness built with -race); all puts of a height pass one square object whose roots were computed first (as callers of Put do), so the published in-memory accessor is read-only",
         "the watchdog reports an operation that has not returned after 40 s (the cache force-closes after 60 s); file descriptors are counted in /proc/self/fd by path prefix of the store directory, first without and then after runtime.GC()",
     ],
 )
